@@ -83,6 +83,9 @@ def main():
             states = catalog.smooth_states(D, N, C, task["seed"], count=2, amp=e.amp) + [np.zeros((C,) + (N,) * D)]
             for order in ((0,) if e.linear else (0, 1, 2, 3, 4)):
                 st = e.build(ex, jnp, D, N, L, dt, order)
+                # precision audit of everything the stepper precomputed (generic pytree view, no attribute names): kinds and item sizes of all inexact leaves
+                leaf_dtypes = sorted({str(l.dtype) for l in jax.tree_util.tree_leaves(st) if hasattr(l, "dtype") and jnp.issubdtype(l.dtype, jnp.inexact)})
+                out["items"].append({"key": ["leaves", e.name, D, N, order], "leaf_dtypes": leaf_dtypes})
                 for si, s in enumerate(states):
                     sj = jnp.asarray(s)  # becomes float32 in the default session
                     y = st(sj)
